@@ -392,7 +392,7 @@ func (s *fsShadow) update(op fsOp, rep fsRep) {
 }
 
 var fsDirs = []string{"d1", "d2", "dir.3"}
-var fsNames = []string{"a", "b", "c", "x.y", "long-name_0123456789"}
+var fsNames = []string{"a", "b", "a.tmp", "c", "x.y", "long-name_0123456789", "b.tmp"}
 
 func randUnits(r *rand.Rand, maxU, maxLen int) []int {
 	n := r.IntN(maxLen + 1)
@@ -517,11 +517,17 @@ func C12(c *ev.Ctx) {
 	cfg := fmt.Sprintf("CONSTANTS\n Dirs = {\"d1\", \"d2\"}\n Names = {\"a\", \"b\", \"c\"}\n Units = {1, 2, 3}\n MaxIno = 8\n MaxFd = 12\n MaxLive = 4\n MaxLen = 5\n D = %d\nINIT Init\nNEXT Next\nINVARIANTS EmitHist\n", depth)
 	_ = os.WriteFile(filepath.Join(dir, "SimFilesys.cfg"), []byte(cfg), 0644)
 	sr := tlc.Run{Dir: dir, Module: "Filesys", Cfg: "SimFilesys.cfg", Workers: 1, Timeout: 15 * time.Minute,
-		Args: []string{"-simulate", fmt.Sprintf("num=%d", nb), "-depth", fmt.Sprint(depth + 1), "-seed", fmt.Sprint(c.Seed)}}.Do()
+		Args: []string{"-simulate", fmt.Sprintf("num=%d", nb/4), "-depth", fmt.Sprint(depth + 1), "-seed", fmt.Sprint(c.Seed)}}.Do()
 	c.AddTLC(sr)
 	if sr.TLCError || len(sr.Prints) == 0 {
 		c.Inconclusive("simulation produced no behaviours:\n%s", tlc.Tail(sr.Out, 20))
 		return
+	}
+	// the simulator evaluates EmitHist on every successor of the last step, so
+	// sibling behaviours share a prefix: sample nb of them
+	rr.Shuffle(len(sr.Prints), func(i, j int) { sr.Prints[i], sr.Prints[j] = sr.Prints[j], sr.Prints[i] })
+	if len(sr.Prints) > nb {
+		sr.Prints = sr.Prints[:nb]
 	}
 	replayed := 0
 	for bi, p := range sr.Prints {
